@@ -306,6 +306,161 @@ def params_twin(p0: int, p1: int, p2: int, p3: int, p4: int, p5: int, ta: int, t
     return not (r is not None and r[2] and p0 != p1 and ta != tb)
 
 
+
+# ---------------------------------------------------------------------------------------------------------------------------------
+# (b)/(d) LLMRails level: two conversations X, Y served by ONE LLMRails instance from ONE asyncio context, in a symbolic interleaving
+# ---------------------------------------------------------------------------------------------------------------------------------
+RAILS_ON = bool(sl("rails", 0))
+FIX = sl("fix", {})
+TEXTS = [["hi", "XQ please"], ["hi", "YQ please"]]  # both conversations open identically: their histories share a prefix (and its cache key)
+if RAILS_ON:
+    from harness import rails as _rails
+    from harness.common import conc
+    from harness.vloop import VLoop
+
+    FUNCTIONS += [
+        "nemoguardrails.rails.llm.llmrails.LLMRails.generate_async (options -> generation_options_var, events_history_cache lookup and update)",
+        "nemoguardrails.rails.llm.llmrails.LLMRails._get_events_for_messages",
+        "nemoguardrails.actions.llm.generation.LLMGenerationActions.generate_user_intent / generate_bot_message (llm_params from the generation options)",
+        "nemoguardrails.colang.v1_0.runtime (generate_events, compute_next_steps)",
+    ]
+    _COLANG = """
+define user ask question
+  "tell me"
+
+define flow answer
+  user ask question
+  bot respond
+"""
+    APP, LLM = _rails.build(_COLANG, "")
+
+    class _R:
+        calls = 0
+
+    def _responder(prompt, n):
+        k = _R.calls
+        _R.calls += 1
+        if k % 2 == 0:
+            return "  ask question"
+        return '  "R%s"' % "".join(m for m in ("XQ", "YQ") if m in prompt)
+
+    def _serve(sched, opts):
+        """Serve the turns of the conversations named by sched (list of 0/1) sequentially from one coroutine on one LLMRails instance.
+        Returns per conversation the replies, the prompts the LLM saw for it and the temperature of each of its LLM calls, plus the temperature at rest."""
+        _rails.reset_app(APP)
+        LLM.reset(responder=_responder)
+        LLM.temperature = 7
+        out = {0: {"replies": [], "prompts": [], "params": []}, 1: {"replies": [], "prompts": [], "params": []}}
+        box = {}
+
+        async def go():
+            try:
+                hist = {0: [], 1: []}
+                for c in sched:
+                    t = len(out[c]["replies"])
+                    msgs = hist[c] + [{"role": "user", "content": TEXTS[c][t]}]
+                    _R.calls = 0
+                    n0 = len(LLM.prompts)
+                    if opts[c]:
+                        r = await APP.generate_async(messages=msgs, options={"llm_params": {"temperature": 3}})
+                        content = r.response[0]["content"]
+                    else:
+                        r = await APP.generate_async(messages=msgs)
+                        content = r["content"]
+                    out[c]["replies"].append(content)
+                    out[c]["prompts"] += LLM.prompts[n0:]
+                    out[c]["params"] += LLM.params_seen[n0:]
+                    hist[c] = msgs + [{"role": "assistant", "content": content}]
+                box["ok"] = True
+            except BaseException as e:  # noqa
+                box["exc"] = e
+
+        loop = VLoop()
+        loop.create_task(go())
+        loop.run(max_steps=400000)
+        if "exc" in box:
+            if isinstance(box["exc"], Exception):
+                return {"error": repr(box["exc"])}
+            raise box["exc"]
+        if "ok" not in box:
+            return {"error": "did not complete"}
+        out["rest"] = LLM.temperature
+        return out
+
+    # reference: each conversation served alone on a cleared instance, for both option settings (run natively at import)
+    stubs.reset()
+    SOLO = {}
+    for _c in (0, 1):
+        for _o in (0, 1):
+            stubs.reset()
+            _r = _serve([_c, _c], {0: _o, 1: _o})
+            assert "error" not in _r, _r
+            SOLO[(_c, _o)] = _r[_c]
+    assert SOLO[(0, 0)]["replies"] == ["R", "RXQ"] and SOLO[(1, 1)]["replies"] == ["R", "RYQ"], SOLO
+    assert SOLO[(0, 1)]["params"] == [3, 3, 3, 3] or 3 in SOLO[(0, 1)]["params"], SOLO[(0, 1)]["params"]
+
+
+def _fixed(**kw):
+    for k, v in kw.items():
+        if k in FIX and v != FIX[k]:
+            return False
+    return True
+
+
+def convs_independent(s0: int, s1: int, s2: int, s3: int, ox: int, oy: int) -> bool:
+    """
+    Two two-turn conversations X and Y (identical first message, so their histories share a prefix) are served by one LLMRails instance from one asyncio
+    context in the interleaving s0..s3 (which conversation is served at each step); X / Y pass `llm_params` (temperature 3) in their options iff ox / oy.
+    For every interleaving and option setting, each conversation's replies, the prompts the LLM sees for it and the temperature of each of its LLM calls
+    are those of the same conversation served alone, and afterwards the LLM object's temperature is the configured one.
+    pre: 0 <= s0 <= 1 and 0 <= s1 <= 1 and 0 <= s2 <= 1 and 0 <= s3 <= 1 and s0 + s1 + s2 + s3 == 2
+    pre: 0 <= ox <= 1 and 0 <= oy <= 1
+    pre: _fixed(s0=s0, s1=s1, ox=ox, oy=oy)
+    post: _
+    """
+    global LAST_INFO
+    stubs.reset()
+    sched = [conc(s, 0, 1) for s in (s0, s1, s2, s3)]
+    opts = {0: conc(ox, 0, 1), 1: conc(oy, 0, 1)}
+    got = _serve(sched, opts)
+    why = None
+    if "error" in got:
+        why = "generate_async raised / did not complete: %s" % got["error"]
+    else:
+        for c in (0, 1):
+            want = SOLO[(c, opts[c])]
+            for k in ("replies", "params", "prompts"):
+                if got[c][k] != want[k]:
+                    why = "conversation %s: %s differ from the same conversation served alone" % ("XY"[c], k)
+                    if k != "prompts":
+                        why += ": %r vs %r" % (got[c][k], want[k])
+                    break
+            if why:
+                break
+        if why is None and got["rest"] != 7:
+            why = "LLM temperature at rest is %r, configured 7" % (got["rest"],)
+    if not _rails.is_tracing():
+        LAST_INFO = {"schedule": ["XY"[c] for c in sched], "options": {"X": bool(opts[0]), "Y": bool(opts[1])}, "why": why,
+                     "replies": None if "error" in got else {"X": got[0]["replies"], "Y": got[1]["replies"]},
+                     "params": None if "error" in got else {"X": got[0]["params"], "Y": got[1]["params"]}}
+    return why is None
+
+
+def convs_twin(s0: int, s1: int, s2: int, s3: int, ox: int, oy: int) -> bool:
+    """
+    Twin: claims no interleaved schedule X,Y,X,Y with different options completes with both second replies produced.
+    pre: 0 <= s0 <= 1 and 0 <= s1 <= 1 and 0 <= s2 <= 1 and 0 <= s3 <= 1 and s0 + s1 + s2 + s3 == 2
+    pre: 0 <= ox <= 1 and 0 <= oy <= 1
+    pre: _fixed(s0=s0, s1=s1, ox=ox, oy=oy)
+    post: _
+    """
+    stubs.reset()
+    sched = [conc(s, 0, 1) for s in (s0, s1, s2, s3)]
+    opts = {0: conc(ox, 0, 1), 1: conc(oy, 0, 1)}
+    got = _serve(sched, opts)
+    return not ("error" not in got and sched == [0, 1, 0, 1] and got[0]["replies"][1] == "RXQ" and got[1]["replies"][1] == "RYQ")
+
+
 _KEY_SMOKE = {"n1": 2, "n2": 2, "r10": 0, "r11": 1, "r12": 0, "r20": 0, "r21": 0, "r22": 0,
               "t10": "hi", "t11": "yo", "t12": "", "t20": "hi", "t21": "yx", "t22": "", "k1": 0, "k2": 1}
 
@@ -314,8 +469,8 @@ SPEC = {
     "functions": FUNCTIONS,
     "bounds": "(a) two conversations of 0..2 (quick) / 0..3 (thorough) messages, roles user/assistant (quick) + context/event from 3-entry pools (thorough), "
               "contents symbolic strings len<=2; (c) all interleavings of 2 (and 3) tasks each doing enter/call/exit on one shared LLM object, temperatures 0..1, "
-              "attribute-backed and model_kwargs-backed LLM objects",
-    "outside": "conversations longer than 3 messages; more than 3 tasks; real provider classes; LLMRails-level interleaving (b,d) is not covered by this check yet",
+              "attribute-backed and model_kwargs-backed LLM objects; (b,d) through the real LLMRails.generate_async: 2 conversations x 2 turns with an identical first message, every interleaving (6), llm_params options on/off per conversation, all calls awaited from one asyncio context",
+    "outside": "conversations longer than 3 messages; more than 3 tasks; real provider classes; truly concurrent (overlapping) generate_async calls at LLMRails level; more than 2 conversations x 2 turns at LLMRails level; Colang 2.x",
     "assumptions": ["known findings (known_findings.json): cache key = ':'-join without roles/escaping; LLMParams restores stale values when blocks of different requests overlap"],
     "explanation": "Known-finding regions are excluded by an explicit early return in the *_outside_known / *_disciplined conditions; the raw conditions are only used to replay the witnesses.",
     "conditions": [
@@ -332,6 +487,10 @@ SPEC = {
          "bound": "2 tasks, every 6-step schedule, temps 0..1", "smoke": [{"slice": {"kind": "attr"}, "args": {"p0": 0, "p1": 1, "p2": 1, "p3": 1, "p4": 0, "p5": 0, "ta": 0, "tb": 1}}]},
         {"fn": "params3_disciplined", "tiers": ("thorough",), "slices": [{"kind": "attr"}, {"kind": "kw"}], "tcond": 1500, "tpath": 10,
          "bound": "3 tasks, every 9-step schedule"},
+        {"fn": "convs_independent", "slices": [{"rails": 1, "fix": {"s0": 0, "ox": 0, "oy": 0}}, {"rails": 1, "fix": {"s0": 0, "ox": 0, "oy": 1}}, {"rails": 1, "fix": {"s0": 0, "ox": 1, "oy": 0}}, {"rails": 1, "fix": {"s0": 0, "ox": 1, "oy": 1}}, {"rails": 1, "fix": {"s0": 1, "ox": 0, "oy": 0}}, {"rails": 1, "fix": {"s0": 1, "ox": 0, "oy": 1}}, {"rails": 1, "fix": {"s0": 1, "ox": 1, "oy": 0}}, {"rails": 1, "fix": {"s0": 1, "ox": 1, "oy": 1}}], "tcond": 900, "tpath": 200,
+         "bound": "2 conversations x 2 turns, identical first message, all 6 interleavings, llm_params options on/off per conversation, one asyncio context",
+         "smoke": [{"slice": {"rails": 1}, "args": {"s0": 0, "s1": 1, "s2": 0, "s3": 1, "ox": 1, "oy": 0}}]},
+        {"fn": "convs_twin", "expect": "counterexample", "slices": [{"rails": 1, "fix": {"s0": 0, "s1": 1, "ox": 1, "oy": 0}}], "tcond": 600, "tpath": 200, "bound": "twin"},
         {"fn": "params_twin", "expect": "counterexample", "slices": [{"kind": "attr"}], "tcond": 120, "tpath": 10, "bound": "twin"},
     ],
 }
